@@ -32,6 +32,14 @@ Section Sound.
   Notation nextLayer_length := (nextLayer_length s hnode Hlen_node).
   Notation nth_nextLayer := (nth_nextLayer s hnode Hlen_node).
   Notation pairbuf_length := (pairbuf_length s hnode Hlen_node).
+  Notation chain_nonempty := (chain_nonempty s hnode Hlen_node).
+  Notation chain_last_len := (chain_last_len s hnode Hlen_node).
+  Notation upV_cases := (upV_cases s hnode Hlen_node).
+  Notation upV_paired := (upV_paired s hnode Hlen_node).
+  Notation upV_hint := (upV_hint s hnode Hlen_node).
+  Notation upV_props := (upV_props s hnode Hlen_node).
+  Notation upV_err_not_ok := (upV_err_not_ok s hnode Hlen_node).
+  Notation vloop_unfold := (vloop_unfold s hnode Hlen_node).
 
   Definition good (h : digest) : Prop := length h = s /\ h <> zeros s.
   Definition hintok (h : digest) : Prop := h = [] \/ length h = s.
@@ -292,58 +300,6 @@ Section Sound.
         pose proof (Nat.mod_upper_bound (N.to_nat (N.lxor p 1)) 2 ltac:(lia)). lia.
   Qed.
 
-  (* ---- one whole up() ---- *)
-  Lemma upV_props : forall n pl hints pl' hints', (length pl <= n)%nat ->
-    upV pl hints = inl (pl', hints') ->
-    (forall it, In it pl' -> exists b, snd it = hnode b) /\
-    (exists used, hints = used ++ hints') /\
-    (pl <> [] -> pl' <> []) /\ (length pl' <= length pl)%nat.
-  Proof.
-    induction n as [|n IH]; intros pl hints pl' hints' Hn Hu.
-    - destruct pl; [|cbn in Hn; lia]. cbn in Hu. inversion Hu; subst.
-      repeat split; [intros ? [] | exists []; reflexivity | tauto | lia].
-    - destruct pl as [|[pos h] rest].
-      + cbn in Hu. inversion Hu; subst.
-        repeat split; [intros ? [] | exists []; reflexivity | tauto | lia].
-      + destruct (upV_cases pos rest) as [(h2 & rest2 & ->)|Hnp].
-        * rewrite upV_paired in Hu. destruct (combine pos h h2) as [nh|] eqn:Ec; [|discriminate].
-          destruct (upV rest2 hints) as [[r hs]|e] eqn:Er; [|discriminate]. cbn in Hu. inversion Hu; subst.
-          destruct (IH rest2 hints r hints' ltac:(cbn in Hn; lia) Er) as (I1 & I2 & I3 & I4).
-          repeat split.
-          -- intros it [<-|Hit]; [|apply I1; assumption]. cbn.
-             unfold MerkleArray.combine in Ec. destruct (N.even pos); destruct (_ <? _)%nat; inversion Ec; unfold MerkleArray.hpair; eauto.
-          -- exact I2.
-          -- discriminate.
-          -- cbn [length] in *. lia.
-        * rewrite upV_hint in Hu by assumption.
-          destruct hints as [|sh hints1]; [discriminate|]. cbn [MerkleArray.stepHint] in Hu.
-          destruct (combine pos h sh) as [nh|] eqn:Ec; [|discriminate].
-          destruct (upV rest hints1) as [[r hs]|e] eqn:Er; [|discriminate]. cbn in Hu. inversion Hu; subst.
-          destruct (IH rest hints1 r hints' ltac:(cbn in Hn; lia) Er) as (I1 & (used & I2) & I3 & I4).
-          repeat split.
-          -- intros it [<-|Hit]; [|apply I1; assumption]. cbn.
-             unfold MerkleArray.combine in Ec. destruct (N.even pos); destruct (_ <? _)%nat; inversion Ec; unfold MerkleArray.hpair; eauto.
-          -- exists (sh :: used). rewrite I2. reflexivity.
-          -- discriminate.
-          -- cbn [length] in *. lia.
-  Qed.
-
-  Lemma upV_err_not_ok : forall n pl hints e, (length pl <= n)%nat -> upV pl hints = inr e -> e <> VOk.
-  Proof.
-    induction n as [|n IH]; intros pl hints e Hn Hu.
-    - destruct pl; [cbn in Hu; discriminate | cbn in Hn; lia].
-    - destruct pl as [|[pos h] rest]; [cbn in Hu; discriminate|].
-      destruct (upV_cases pos rest) as [(h2 & rest2 & ->)|Hnp].
-      + rewrite upV_paired in Hu. destruct (combine pos h h2) as [nh|]; [|inversion Hu; discriminate].
-        destruct (upV rest2 hints) as [[r hs]|e'] eqn:Er; [discriminate|]. cbn in Hu. inversion Hu; subst.
-        apply (IH rest2 hints); [cbn in Hn; lia | assumption].
-      + rewrite upV_hint in Hu by assumption.
-        destruct hints as [|sh hints1]; [cbn in Hu; inversion Hu; discriminate|]. cbn [MerkleArray.stepHint] in Hu.
-        destruct (combine pos h sh) as [nh|]; [|inversion Hu; discriminate].
-        destruct (upV rest hints1) as [[r hs]|e'] eqn:Er; [discriminate|]. cbn in Hu. inversion Hu; subst.
-        apply (IH rest hints1); [cbn in Hn; lia | assumption].
-  Qed.
-
   Lemma upV_sound_step : forall k, (S k < length lv)%nat ->
     forall n pl hints pl' hints', (length pl <= n)%nat ->
       (forall it, In it pl -> good (snd it)) -> Forall hintok hints ->
@@ -378,21 +334,6 @@ Section Sound.
         * intros it' Hit'. apply HP. right. assumption.
   Qed.
 
-  (* ---- the loop ---- *)
-  Lemma vloop_unfold : forall fuel root pl hints,
-    vloop fuel root pl hints =
-    match hints, (length pl <=? 1)%nat with
-    | [], true => inspectRoot root pl
-    | _, _ => match fuel with
-              | O => VOutOfFuel
-              | S f => match upV pl hints with
-                       | inr e => e
-                       | inl (pl', hints') => vloop f root pl' hints'
-                       end
-              end
-    end.
-  Proof. intros [|f] root pl hints; reflexivity. Qed.
-
   Lemma vloop_sound : forall fuel pl hints, pl <> [] ->
     (forall it, In it pl -> good (snd it)) -> Forall hintok hints ->
     vloop fuel (hd [] (last lv [])) pl hints = VOk ->
@@ -405,7 +346,7 @@ Section Sound.
       unfold inspectRoot in Hv. destruct (N.eqb_spec p 0); [|discriminate]. cbn [andb] in Hv.
       destruct (digest_eqb h _) eqn:Ed; [|discriminate]. apply digest_eqb_eq in Ed. subst p h.
       exists (length lv - 1)%nat.
-      pose proof (chain_nonempty s hnode lv Hchain). pose proof (chain_last_len s hnode lv Hchain) as Hll.
+      pose proof (chain_nonempty lv Hchain). pose proof (chain_last_len lv Hchain) as Hll.
       split; [destruct lv; [contradiction | cbn; lia]|].
       intros it [<-|[]]. unfold Phi, L. cbn [fst snd]. rewrite (chain_last_nth lv Hchain).
       destruct (last lv []) as [|t [|? ?]]; try (cbn in Hll; lia).
@@ -438,7 +379,7 @@ Section Sound.
         unfold inspectRoot in Hi. destruct (N.eqb_spec p 0); [|discriminate]. cbn [andb] in Hi.
         destruct (digest_eqb h _) eqn:Ed; [|discriminate]. apply digest_eqb_eq in Ed. subst p h.
         exists (length lv - 1)%nat.
-        pose proof (chain_nonempty s hnode lv Hchain). pose proof (chain_last_len s hnode lv Hchain) as Hll.
+        pose proof (chain_nonempty lv Hchain). pose proof (chain_last_len lv Hchain) as Hll.
         split; [destruct lv; [contradiction | cbn; lia]|].
         intros it [<-|[]]. unfold Phi, L. cbn [fst snd]. rewrite (chain_last_nth lv Hchain).
         destruct (last lv []) as [|t [|? ?]]; try (cbn in Hll; lia).
